@@ -233,7 +233,19 @@ def main(run):
                 for nm in rng.sample(pdn, min(len(pdn), rng.choice([0, 1, 2]))):
                     pr = [x for x in pinfo.parameters.call_parameters if x.name == nm][0]
                     disp[nm + "_pd"] = rng.uniform(2, 10) if pr.type == "orientation" else rng.uniform(0.05, 0.25)
-                    disp[nm + "_pd_n"] = rng.choice([3, 5, 9])
+                    disp[nm + "_pd_n"] = rng.choice([3, 5, 9, 12, 14])       # two parameters at 12-14 points: more than one kernel invocation (slices of 100)
+                # one case per form factor runs P's mesh beyond a single kernel invocation (slices of 100 points) with an
+                # effective-radius mode selected: the running R_eff total is then carried from slice to slice - in 2-D
+                # for oriented form factors (rep 3), in 1-D otherwise (rep 2; this reaches the kernels without an
+                # amplitude function)
+                if modes and pdn and ((oriented and rep == 3) or (not oriented and rep == 2)):
+                    lens_ = [nm for nm in pdn if [x for x in pinfo.parameters.call_parameters if x.name == nm][0].type == "volume"][:2]
+                    if lens_:
+                        disp = {}
+                        for nm in lens_:
+                            disp[nm + "_pd"] = rng.uniform(0.05, 0.15); disp[nm + "_pd_n"] = 12 if len(lens_) > 1 else 130
+                        mode = rng.randint(1, len(modes))
+                        stats["meshes_beyond_one_invocation"] = stats.get("meshes_beyond_one_invocation", 0) + 1
                 er_disp = {}
                 er_par = [x for x in info.parameters.call_parameters if x.name == "radius_effective"][0]
                 if rng.random() < 0.3 and er_par.polydisperse and "radius_effective" in (info.parameters.pd_2d if dim == "2d" else info.parameters.pd_1d):
@@ -288,6 +300,35 @@ def main(run):
                 pk = pm.make_kernel(q); sk = sm.make_kernel(q)
                 fq = dict(ppars); fq.update(disp); fq.update(scale=1.0, background=0.0, radius_effective_mode=mode)
                 F, Fsq, reff, shell, ratio = call_Fq(pk, fq, cutoff=1e-5)
+                # P's averages are the leaves of the recombination; for the dispersed cases whose mesh is small enough
+                # they are themselves checked against the property's words: the weighted mean over the mesh of the
+                # effective radius / volumes of monodisperse evaluations (mesh points in table order, weights from
+                # get_mesh, cutoff 1e-5)
+                if disp and mode > 0:
+                    from sasmodels.direct_model import get_mesh
+                    import itertools as _it
+                    mesh_ = get_mesh(pinfo, dict(fq, radius_effective_mode=mode) if False else {k_: v_ for k_, v_ in fq.items() if k_ != "radius_effective_mode"}, dim=dim)
+                    cp_ = pinfo.parameters.call_parameters
+                    act = [(p_.name, np.asarray(m_[1], "d"), np.asarray(m_[2], "d")) for p_, m_ in zip(cp_, mesh_) if len(m_[2]) > 1 and not (p_.type == "orientation")]
+                    npts_ = int(np.prod([len(w_) for _, _, w_ in act])) if act else 0
+                    if act and npts_ <= 320 and all(len(m_[2]) == 1 for p_, m_ in zip(cp_, mesh_) if p_.type == "orientation"):
+                        wn = wr = wsh = wfo = 0.0
+                        for idx in _it.product(*[range(len(w_)) for _, _, w_ in act]):
+                            w = 1.0
+                            pt = {k_: v_ for k_, v_ in ppars.items()}
+                            for (nm_, vals_, wts_), i_ in zip(act, idx):
+                                w *= float(wts_[i_]); pt[nm_] = float(vals_[i_])
+                            if not w > 1e-5:
+                                continue
+                            r1 = call_Fq(pk, dict(pt, scale=1.0, background=0.0, radius_effective_mode=mode), cutoff=0.0)
+                            if not (sas.raw_sums(pk, len(q[0]))["norm"] > 0):
+                                continue
+                            wn += w; wr += w * float(r1[2]); wsh += w * float(r1[3]); wfo += w * float(r1[3]) * float(r1[4])
+                        evals += npts_
+                        stats["brute_force_reff"] = stats.get("brute_force_reff", 0) + 1
+                        if wn > 0 and (abs(wr / wn - reff) > 1e-9 * abs(reff) + 1e-300 or abs(wsh / wn - shell) > 1e-9 * abs(shell)):
+                            run.add(Finding("C07:reff:%s" % pn, "%s (%s, mode %d, mesh of %d points): call_Fq reports R_eff = %.12g, V_shell = %.12g; the weighted means over the mesh are %.12g, %.12g" % (
+                                pn, dim, mode, npts_, reff, shell, wr / wn, wsh / wn), dict(desc, reff=float(reff), brute_force_reff=wr / wn)))
                 sp = dict(spars)
                 sp.update(scale=1.0, background=0.0, volfraction=volfrac * ratio)
                 if mode > 0:
